@@ -114,6 +114,50 @@ func c12Configs(thorough bool) (cfgs []modelCfg, conc []bool) {
 			}
 		}
 	}
+	// name lists that repeat a name: every list of length 2..4 over {r0,r1,r2,zz} with at least one
+	// repetition, every variant (no failing rule; N,M = a split of the list length)
+	var rep func(cur []string)
+	var repLists [][]string
+	alpha := []string{"r0", "r1", "r2", "zz"}
+	rep = func(cur []string) {
+		if len(cur) >= 2 {
+			seen := map[string]bool{}
+			dup := false
+			for _, n := range cur {
+				if seen[n] {
+					dup = true
+				}
+				seen[n] = true
+			}
+			if dup {
+				repLists = append(repLists, append([]string{}, cur...))
+			}
+		}
+		if len(cur) == 4 {
+			return
+		}
+		for _, a := range alpha {
+			rep(append(cur, a))
+		}
+	}
+	rep(nil)
+	for _, names := range repLists {
+		var rules []ruleCfg
+		for i := 0; i < 4; i++ {
+			rules = append(rules, ruleCfg{Name: ruleNames[i], Sal: sals[0][i]})
+		}
+		for _, m := range selectedModels {
+			n, mm := 0, 0
+			if m.nm {
+				n, mm = 1, len(names)-1
+			}
+			if !thorough && m.conc && len(names) == 4 {
+				continue
+			}
+			cfgs = append(cfgs, modelCfg{Prop: "C12", Rules: rules, Model: m.name, B: true, N: n, M: mm, Names: names, Repeats: true})
+			conc = append(conc, false)
+		}
+	}
 	return
 }
 
@@ -124,9 +168,9 @@ func init() {
 		BudgetQuick: 150 * time.Second,
 		BudgetThor:  25 * time.Minute,
 		Kind:        "schedules",
-		Rule: "rule set of 4 rules (strict saliences; one tie with names out of salience order) x every name list of length 0..4 without repetition over {r0,r1,r2,r3,unknown} (206 lists incl. all permutations) x all 11 selected variants x policy x (N,M) with N+M in {len-1,len,len+1} x failing subset of size <=1; " +
+		Rule: "rule set of 4 rules (strict saliences; one tie with names out of salience order) x every name list of length 0..4 without repetition over {r0,r1,r2,r3,unknown} (206 lists incl. all permutations) x all 11 selected variants x policy x (N,M) with N+M in {len-1,len,len+1} x failing subset of size <=1; plus every list of length 2..4 over {r0,r1,r2,unknown} that repeats a name; " +
 			"sequential variants: one deterministic execution each; concurrent/mix/inverse/N-M variants: every schedule with <=1 (thorough 2) preemptions; oracle = staged reference plan on exactly the named existing rules (sorted / as-given order, unknown skipped, fail-without-running cases, no unselected rule ever runs)",
-		Assume: []string{"injected observer functions terminate", "name lists without repeated names (the statement does not define repeats)"},
+		Assume: []string{"injected observer functions terminate", "for name lists that repeat a name only 'no unselected rule runs / every named existing rule runs / nothing selectable fails' is judged (the statement does not say how often a repeated name runs)"},
 		Run: func(c *hx.Ctx) {
 			cfgs, conc := c12Configs(c.Thorough())
 			bound := 1
